@@ -528,6 +528,36 @@ fn mutations_for(p: &Prepared, rng: &mut vh::rng::SplitMix64, payload_samples: u
             out.push(Mutation::Delete { pos: q, len: 1 });
         }
     }
+    // well-formed units inserted right before / after the manifest container (JPEG COM segment, PNG tEXt chunk,
+    // GIF comment extension): the file stays parseable, so only the hard binding can notice them
+    let fam = vh::walk::family(&p.spec.format).unwrap_or("");
+    let unit: Option<Vec<u8>> = match fam {
+        "jpeg" => Some(vec![0xFF, 0xFE, 0x00, 0x08, b'v', b'e', b'r', b'i', b'f', b'!']),
+        "png" => {
+            // tEXt chunk: keyword "vk", NUL, text "abc"
+            let data: &[u8] = b"vk\0abc";
+            let mut body = b"tEXt".to_vec();
+            body.extend_from_slice(data);
+            let mut c = (data.len() as u32).to_be_bytes().to_vec();
+            c.extend_from_slice(&body);
+            c.extend_from_slice(&vh::assets::crc32(&body).to_be_bytes());
+            Some(c)
+        }
+        "gif" => Some(vec![0x21, 0xFE, 0x05, b'v', b'e', b'r', b'i', b'f', 0x00]),
+        _ => None,
+    };
+    if let Some(u) = unit {
+        if let Ok(spans) = manifest_spans(&p.spec.format, &p.bytes) {
+            if let (Some(first), Some(last)) = (spans.first(), spans.last()) {
+                out.push(Mutation::Insert { pos: first.0, bytes: u.clone() });
+                out.push(Mutation::Insert { pos: last.0 + last.1, bytes: u.clone() });
+                // twice the unit (longer insertion)
+                let mut uu = u.clone();
+                uu.extend_from_slice(&u);
+                out.push(Mutation::Insert { pos: first.0, bytes: uu });
+            }
+        }
+    }
     // structural tail edits
     for k in [1usize, 2, 8, 64] {
         if len > k {
